@@ -17,7 +17,12 @@ package triple
 //@   ensures[value-or-error] (result0 != nil && result1 == nil) || (result0 == nil && result1 != nil)
 //@   ensures[well-formed] result0 != nil ==> wfObj(result0)
 
+// $parsedOK: ghost counter of the lines triple.Parse accepted.
+//@ ghost var $parsedOK Int
 //@ func Parse
+//@   modifies $parsedOK
+//@   ghostdef result1 == nil ==> $parsedOK == old($parsedOK) + 1
+//@   ghostdef result1 != nil ==> $parsedOK == old($parsedOK)
 //@   opt terminates
 //@   opt replay-arg-b literal.DefaultBuilder()
 //@   opt replay-imports github.com/google/badwolf/triple/literal
